@@ -243,6 +243,13 @@ class Scenario:
                     return None
                 s.host = cfg["peers"][i]["name"]
                 return env.cer(host=s.host, acct=napps_acct or (), auth=napps_auth or (), hbh=hbh, e2e=e2e, ip=s.fs.peer_name[0])
+            if var.startswith("v6p"):           # known peer, two Host-IP-Address AVPs (IPv4 + IPv6), Origin-State-Id, Supported-Vendor-Id
+                i = int(var[3:])
+                if i >= len(cfg["peers"]):
+                    return None
+                s.host = cfg["peers"][i]["name"]
+                return env.cer(host=s.host, acct=napps_acct or (), auth=napps_auth or (), hbh=hbh, e2e=e2e, ip=s.fs.peer_name[0],
+                               extra=[rc.addr(257, "2001:db8::7"), rc.u32(278, 77), rc.u32(265, 10415), rc.u32(265, 193), rc.u32(267, 3)])
             if var == "unknown":
                 s.host = "stranger.example.org"
                 return env.cer(host=s.host, acct=napps_acct or (env.APP_ACCT,), auth=napps_auth, hbh=hbh, e2e=e2e)
@@ -354,6 +361,11 @@ class Scenario:
                 s.nreq -= 1
                 return None
             d = env.acr(host=host, hbh=hb, e2e=e2e)
+        elif name == "req_noP":     # request bit only (not proxiable), version field 2
+            d0 = env.acr(host=host, hbh=hbh, e2e=e2e, flags=R) if napps_acct else env.ccr(host=host, hbh=hbh, e2e=e2e, flags=R)
+            d = bytes([2]) + d0[1:]
+        elif name == "req_E":       # request with the error bit set by a confused peer
+            d = env.acr(host=host, hbh=hbh, e2e=e2e, flags=R | P | E) if napps_acct else env.ccr(host=host, hbh=hbh, e2e=e2e, flags=R | P | E)
         elif name == "req_big":     # larger than one recv(2048): arrives over several reads
             d = env.acr(host=host, hbh=hbh, e2e=e2e, extra=[rc.octets(25, bytes((i * 7) & 0xff for i in range(3000)))]) if napps_acct else \
                 env.ccr(host=host, hbh=hbh, e2e=e2e)
